@@ -271,6 +271,14 @@ def check_misc(case):
         same(F(rigid.Diagram.swap(x, z) @ rigid.Id(x) @ g), np.kron(np.kron(
             perm_matrix(sa["dom"], sc["dom"]), ida), C),
             "functor-idle-wire-after-swap", images)
+    if (na * nc) ** 2 * ma <= small:
+        # a box right after a swap, on the wire that was moved to the right
+        same(F(rigid.Diagram.swap(x, z) >> rigid.Id(z) @ f),
+             perm_matrix(sa["dom"], sc["dom"]) @ np.kron(idc, A),
+             "functor-box-after-swap", images)
+        same(F(rigid.Diagram.swap(z, x) >> f @ rigid.Id(z)),
+             perm_matrix(sc["dom"], sa["dom"]) @ np.kron(A, idc),
+             "functor-box-after-swap", images)
     if na * nc * ma * nc * mc * ma <= small:
         same(F(f @ rigid.Id(z) >> rigid.Diagram.swap(y, z)
                >> g @ rigid.Id(y)),
